@@ -49,13 +49,20 @@ def gen_cases(ctx: Ctx):
         for fl in combos[:ctx.pick(8, 32)]:
             rows = [dict(o=1, a=1, r=rng.choice([-1, 0, 2]), o2=1, done=d, timeout=t) for (d, t) in fl]
             c = dict(rows=rows, q1=rng.choice([5, -2, 0, 8]), q2=rng.choice([5, -2, 1, 3]), q1t=rng.choice([6, 3, -4]),
-                     q2t=rng.choice([6, 3, -1]), lp=rng.choice([-2, -6, 1]), g2=rng.choice([1, 2]))
+                     q2t=rng.choice([6, 3, -1]), lp=rng.choice([-2, -6, 1]), g2=rng.choice([1, 2]), a=rng.choice([1, 1, 2]))
             cases.append(("sac", c, False))
+    # a DQN object configured with a non-default discount: its real dqn_train against the static loss with that discount
+    for g in (0.5, 0.8, 0.0, 1.0)[:ctx.pick(2, 4)]:
+        for _ in range(ctx.pick(2, 6)):
+            cases.append(("configured_dqn", g, rng.randrange(10 ** 6)))
     return cases
 
 
 def record(case):
     from .. import drive_losses as dl
+    if case[0] == "configured_dqn":
+        from .. import drive_identity as di
+        return dict(di.dqn_routing_case(case[1], case[2]), c={})
     kind, c, same = case
     return dl.dqn_case(c, same) if kind == "dqn" else dl.sac_case(c)
 
